@@ -503,6 +503,10 @@ pub struct CfgCase {
     /// instant delete
     pub prune_mode: u8,
     pub files: Vec<FileSpec>,
+    /// all configuration changes are issued through ONE open handle (otherwise each through a
+    /// freshly opened one)
+    #[serde(default)]
+    pub same_handle: bool,
 }
 
 const N_CLASSES: u8 = 13;
@@ -522,14 +526,16 @@ fn cfg_strategy(_ctx: &Ctx) -> BoxedStrategy<CfgCase> {
             (0..N_CLASSES, 0u8..3, any::<u64>()).prop_map(|(class, kind, seed)| FileSpec { class, kind, seed }),
             1..=5,
         ),
+        any::<bool>(),
     )
-        .prop_map(|(start, steps, backup_first, forget_first, prune_mode, files)| CfgCase {
+        .prop_map(|(start, steps, backup_first, forget_first, prune_mode, files, same_handle)| CfgCase {
             start,
             steps,
             backup_first,
             forget_first,
             prune_mode,
             files,
+            same_handle,
         })
         .boxed()
 }
@@ -919,18 +925,39 @@ pub fn run_config(c: &CfgCase, ctx: &Ctx) -> Outcome {
 
     // ---- configuration changes -----------------------------------------------------------------
     let (mut n_ok, mut n_err) = (0u64, 0u64);
+    let mut shared: Option<RepoOpen> = None;
+    if c.same_handle && !c.steps.is_empty() {
+        shared = match fresh(&storage) {
+            Ok(r) => Some(r),
+            Err(e) => fail!("cannot open the repository: {e}"),
+        };
+        out = out.class("changes_through_one_handle");
+    }
     for (i, o) in c.steps.iter().enumerate() {
         let before = raw_config(&storage);
-        let mut repo = match fresh(&storage) {
-            Ok(r) => r,
-            Err(e) => fail!("step {i}: cannot open the repository: {e}"),
+        let mut repo = match shared.take() {
+            Some(r) => r,
+            None => match fresh(&storage) {
+                Ok(r) => r,
+                Err(e) => fail!("step {i}: cannot open the repository: {e}"),
+            },
         };
         let lib = o.to_lib();
-        match guarded(|| repo.apply_config(&lib)) {
+        let applied = guarded(|| repo.apply_config(&lib));
+        // what the handle that issued the change works with afterwards
+        let mem_after = repo.config().clone();
+        if c.same_handle {
+            shared = Some(repo);
+        } else {
+            drop(repo);
+        }
+        match applied {
             Err(p) => fail!("step {i}: apply_config panicked: {p}"),
             Ok(Err(_)) => {
                 n_err += 1;
-                drop(repo);
+                if let Some(d) = diff_cfg(&cur, &mem_after) {
+                    fail!("step {i}: a refused change altered the configuration the open handle goes on working with: {d}");
+                }
                 if raw_config(&storage) != before {
                     fail!("step {i}: apply_config refused the change but the stored config file changed");
                 }
@@ -947,8 +974,7 @@ pub fn run_config(c: &CfgCase, ctx: &Ctx) -> Outcome {
                 if let Some(v) = o.version.filter(|v| *v < cur.version) {
                     fail!("step {i}: version {v} accepted although the stored version is {}", cur.version);
                 }
-                let mem = repo.config().clone();
-                drop(repo);
+                let mem = mem_after;
                 let stored = match fresh(&storage) {
                     Ok(r) => r.config().clone(),
                     Err(e) => fail!("step {i}: apply_config returned Ok but the repository cannot be opened: {e}"),
